@@ -305,6 +305,63 @@ claim("C35", "S1",
       "Period values / real timing not decided; CatchScheduler's periodic path is C42.",
       "ast def-use + guard dominance + handler analysis")
 
+claim("C05", "S1",
+      "Skeleton only: for the 20 listed element-wise operators the typestate signature of every slot (set of "
+      "downstream-call sequences per handler path, helpers inlined) equals the hand-confirmed reference; errors pass "
+      "through, completion is passed through or always ends in a terminal call, at most one output per input; no "
+      "scheduler is used (outputs are emitted inside the determining input's notification); composites are pipelines of "
+      "their documented components.",
+      "The list-equality core (values, counts, comparisons) is NOT decided. The reference table is a behavioural "
+      "abstraction confirmed by reading, regenerated only by hand (tools/gen_typestate_ref.py).",
+      "ast path-enumerated typestate signatures vs confirmed reference + who-may-call on schedulers")
+
+claim("C06", "S1",
+      "Skeleton only: typestate signatures of the aggregate implementations equal the confirmed reference (silent per "
+      "element, result + completion at the deciding notification), termination clauses, no scheduler, error kinds "
+      "(SequenceContainsNoElementsError decided by a presence flag; single fails on a second element), composite "
+      "definitions (reduce = scan + last, count/sum = reduce, min/max = *_by, all/contains/is_empty = filter/some/map).",
+      "Numeric results and collection contents are NOT decided.",
+      "ast path-enumerated typestate signatures + guard dominance on error kinds + delegation table")
+
+claim("C10", "S1",
+      "Sequencer structure: signatures equal the reference; the iterator-advancing action is scheduled only from "
+      "subscribe and from exactly the terminal slot(s) each operator continues on, the other terminal and elements are "
+      "passed through; the new inner goes through the SerialDisposable before subscribing; repeat/retry/while_do/"
+      "do_while/start_with/concat/for_in delegate, counts forwarded into range().",
+      "Subscription counts and output contents for concrete inputs are NOT decided.",
+      "ast who-may-schedule (call graph over slots) + dominance + delegation table")
+
+claim("C11", "S1",
+      "merge_/merge_all_: signatures equal the reference (inner elements/errors passed straight through); completion-join "
+      "dependence (outer-stopped flag and active count dominate every downstream completion); max_concurrent guard, "
+      "enqueue on the other branch, FIFO dequeue, active count only dropped when nothing is queued; flat_map*/merge/"
+      "concat_map delegations.",
+      "Element order/timing for concrete inputs is NOT decided.",
+      "ast typestate signatures + guard dominance (control dependence)")
+
+claim("C12", "S1",
+      "switch_latest_: signature equals the reference; every downstream call of an inner handler is dominated by "
+      "`latest == captured id`, id bumped and captured before subscribing; holder routed through the SerialDisposable "
+      "(held by the result) before subscribing; completion join; switch_map*/flat_map_latest delegations.",
+      "Timing of concrete inner sequences is NOT decided.",
+      "ast guard dominance (stale-id) + ownership + typestate signatures")
+
+claim("C13", "S1",
+      "Dependence signatures of zip / combine_latest / with_latest_from / fork_join / amb equal the hand-confirmed "
+      "reference; emission and completion gates (all queues non-empty, all-have-value flag, sentinel membership, all "
+      "done, winner gate with the loser disposed in the same step).",
+      "Tuple contents and timing are NOT decided.",
+      "ast typestate signatures vs frozen table + guard dominance")
+
+claim("C14", "S2",
+      "Chain of necessary conditions: subscribe goes through the current-thread trampoline when required "
+      "(schedule_required = idle()); each synchronous producer polls a dispose flag in its loop or emits one element per "
+      "scheduled step through a held container (ownership); each early terminator has an element/trigger path reaching "
+      "a terminal call; terminal => wrapper dispose in a finally.",
+      "The amount of work before subscribe() returns is not measured; composition through arbitrary pipelines relies on "
+      "C02/C03's ownership discipline.",
+      "ast guard dominance + ownership + typestate signatures")
+
 na("C15", "arithmetic over run-time timestamps (queue ordering by timestamp + duetime, 'exactly d later'); no structural "
           "clause that is both necessary and robust beyond ownership/guarding/falsy rules already decided under "
           "C02/C03/C08/C09, whose scope includes these files")
